@@ -3,7 +3,9 @@ CONSTANTS
   Threads = {1, 2, 3, 4}
   CompilerScope = "per execution"
   ColumnMemo = "none"
+  ParserScope = "per call"
+  ScanMemo = "none"
 INIT TInit
 NEXT TNext
-INVARIANTS TypeOK SerialInv OwnParameters OwnRow
+INVARIANTS TypeOK SerialInv OwnParameters OwnRow OwnStatement
 CHECK_DEADLOCK FALSE
